@@ -1,3 +1,4 @@
+import CantoVerif.Model.Abi
 import CantoVerif.Driver.Common
 import CantoVerif.Spec.Csr
 /-!
@@ -48,7 +49,44 @@ def parsePayload (s : String) : Payload :=
   match s.splitOn "~" with
   | ["R", c, code, id] => .reg c (code == "1") (natOf id)
   | ["A", c, code, id] => .upd c (code == "1") (natOf id)
+  | ["R", c, code, id, _] => .reg c (code == "1") (natOf id)
+  | ["A", c, code, id, _] => .upd c (code == "1") (natOf id)
   | _ => .malformed
+
+def hexNib (c : Char) : Nat :=
+  if c.isDigit then c.toNat - '0'.toNat else if 'a' ≤ c && c ≤ 'f' then c.toNat - 'a'.toNat + 10 else 0
+
+def hexBytes (s : String) : List Nat :=
+  let rec go : List Char → List Nat
+    | a :: b :: r => (hexNib a * 16 + hexNib b) :: go r
+    | _ => []
+  go s.toList
+
+/-- the non-indexed inputs of the Turnstile's `Register(address smartContract, address receiver, uint256 id)` and
+`Assign(address smartContract, uint256 id)` events -/
+def regTys : List Abi.Ty := [.address, .address, .uint256]
+def asgTys : List Abi.Ty := [.address, .uint256]
+
+/-- One log token against the Lean model of the contract ABI (`Model/Abi.lean`, round trip proved in `Props/AbiRoundTrip.lean`):
+data the real decoder accepted must decode in the model to the same token id, data it refused must not decode.
+(go-ethereum additionally refuses EMPTY data for an event with non-indexed inputs before looking at offsets; the model's
+decoder refuses it as a truncated head - same verdict.) -/
+def abiLogOk (tok : String) : Bool :=
+  match tok.splitOn "/" with
+  | [_, t, p] =>
+    let tys := if t == "reg" then regTys else asgTys
+    (match p.splitOn "~" with
+     | ["M", h] => (Abi.decodeTuple tys (hexBytes h)).isNone
+     | [k, _, _, id, h] =>
+       if k == "R" || k == "A" then
+         (match Abi.decodeTuple tys (hexBytes h) with
+          | some vs => (match vs.getLast? with | some (.uint n) => n == natOf id | _ => false)
+          | none => false)
+       else true
+     | _ => true)
+  | _ => true
+
+def abiLogsOk (s : String) : Bool := (listOf s ";").all abiLogOk
 
 def parseTopic (s : String) : Topic :=
   match s with
@@ -190,7 +228,8 @@ def processLine (acc : Acc) (line : String) : Acc :=
            else if !bankEq modelPost.bank implPost.bank then ["bank"] else []) ++
           (if !(Spec.csrsEq modelPost implPost && Spec.idxEq modelPost implPost) then ["registry"] else []) ++
           (if !(modelPost.tsBal.eqv implPost.tsBal) then ["turnstile"] else []) ++
-          (if modelPost.params != implPost.params || modelPost.turnstile != implPost.turnstile then ["params"] else [])
+          (if modelPost.params != implPost.params || modelPost.turnstile != implPost.turnstile then ["params"] else []) ++
+          (if kind == "hook" && !abiLogsOk ((kvOf args).get "logs") then ["abi"] else [])
         let tr : Spec.Tr := { env := acc.env, pre := acc.cur, op := op, ok := implOk, post := implPost }
         let lk' := if dkv.has "lk" then dkv.get "lk" else acc.lk
         let viol := Spec.monitors.filterMap (fun (pid, name, f) => if f tr then none else some s!"{seq} V {pid} {name}")
